@@ -194,7 +194,13 @@ impl Scenario for ScanEdit {
             // pilot: when does the scan pick up F under this sigma?
             let r3 = root.clone();
             let f3 = inp.file.clone();
-            let (poc, t) = simrt::run(inp.sim.cfg(replay_list(input, 0)), move || pilot(&r3, &f3));
+            // an open+close is aimed at the end of the walk (just before the import phase builds its work list)
+            let walk_files = if inp.kind == "openclose" {
+                Some(inp.spec.files.iter().filter(|f| !f.rel.starts_with('.') && !f.rel.starts_with("plugsrc/")).filter(|f| { let b = f.rel.rsplit('/').next().unwrap_or(""); b == "conftest.py" || (b.starts_with("test_") && b.ends_with(".py")) || b.ends_with("_test.py") }).count())
+            } else {
+                None
+            };
+            let (poc, t) = simrt::run(inp.sim.cfg(replay_list(input, 0)), move || pilot2(&r3, &f3, walk_files));
             out.absorb_outcome(&poc);
             k = 1;
             if let Some(a) = &poc.abort {
@@ -282,8 +288,13 @@ impl Scenario for ScanEdit {
     }
 }
 
-/// Scan only; returns the number of scheduler steps after `initialized` at which F's text entered the cache.
+/// Scan only; returns the number of scheduler steps after `initialized` at which F's text entered the cache
+/// (with `walk_files` = Some(n): at which n files were cached, i.e. the walk was about done and the import phase about to start).
 fn pilot(root: &Path, file: &str) -> Option<u64> {
+    pilot2(root, file, None)
+}
+
+fn pilot2(root: &Path, file: &str, walk_files: Option<usize>) -> Option<u64> {
     let mut srv = LspServer::start(root);
     let id = srv.initialize();
     srv.await_response(id, 200)?;
@@ -293,7 +304,11 @@ fn pilot(root: &Path, file: &str) -> Option<u64> {
     let abs = root.join(file);
     let mut found = None;
     for _ in 0..4000 {
-        if srv.db.file_cache.contains_key(&abs) {
+        let hit = match walk_files {
+            Some(n) => srv.db.file_cache.len() >= n,
+            None => srv.db.file_cache.contains_key(&abs),
+        };
+        if hit {
             found = Some(simrt::total_steps() - t0);
             break;
         }
